@@ -14,10 +14,16 @@ RULE = ('Hypothesis draws (direction with emphasis r_y > 0, error rate incl. '
         'product, log form); on larger codes seeded random errors in '
         'uint8/int64/uint dtypes; single-qubit Metropolis moves: the '
         'likelihood ratio and the log-probability returned by '
-        'SplittingSimulation.get_next_error. Non-trivial = an error '
+        'SplittingSimulation.get_next_error; generate() with its default '
+        'rng: successive draws distinct on codes where a collision has '
+        'probability < 1e-9, total-variation distance to the product '
+        'distribution on a 4-qubit code. Non-trivial = an error '
         'containing I, X, Y and Z evaluated under r_y not in {0,1}; '
         'distinct = distinct case dict')
 ASSUMPTIONS = [
+    'the default-rng sub-check uses the library\'s own entropy-seeded generator '
+    '(not reproducible from VERIF_SEED); it only fails on events whose '
+    'probability under the stated distribution is below 1e-9',
     'the per-qubit channel table is the one validated by C07 (recomputed '
     'here from direction, rate and get_deformation)',
     'relative tolerance 1e-10 on probabilities, absolute 1e-9 on sums and '
@@ -65,6 +71,49 @@ def close(a, b, rel=1e-10, ab=1e-300):
     return abs(a - b) <= rel * max(abs(a), abs(b)) + ab
 
 
+def default_rng_case(case, fail):
+    """generate() with the documented default rng=None (the tutorial and the
+    GUI call it that way): successive draws are independent samples of the
+    product distribution.  Outcomes of the library's own entropy-seeded
+    generator are not reproducible, so only events of probability < 1e-9
+    under the stated distribution count as failures."""
+    from panqec.error_models import PauliErrorModel
+    cls, size = case['cls'], tuple(case['size'])
+    r, p = case['direction'], case['error_rate']
+    name, kwargs = case.get('deformation'), case.get('kwargs', {})
+    code = domain.build_code(cls, size)
+    n = code.n
+    em = PauliErrorModel(*r, deformation_name=name, deformation_kwargs=dict(kwargs))
+    t = table(code, r, p, name, kwargs)
+    draws = [np.asarray(em.generate(code, p)).astype(np.uint8) for _ in range(case['n_draws'])]
+    # (a) collisions: P(two given draws equal) = prod_q sum_s t_s(q)^2
+    coll = 1.0
+    for q in range(n):
+        coll *= sum(float(t[s][q]) ** 2 for s in 'IXYZ')
+    pairs = len(draws) * (len(draws) - 1) / 2
+    distinct = len({d.tobytes() for d in draws})
+    if pairs * coll < 1e-9 and distinct != len(draws):
+        fail('default_rng_draws_independent',
+             f'{len(draws)} successive generate() calls without an rng returned only '
+             f'{distinct} distinct errors (collision probability {pairs * coll:.1e})')
+    # (b) small codes: empirical distribution against the product formula
+    if n <= 4:
+        counts = {}
+        for d in draws:
+            counts[d.tobytes()] = counts.get(d.tobytes(), 0) + 1
+        from checks.c04_success_iff_stabilizer import all_errors
+        tv = 0.0
+        for e in all_errors(n, 0, 4 ** n):
+            pr, _ = ref_prob(t, e, n)
+            tv += abs(counts.get(e.astype(np.uint8).tobytes(), 0) / len(draws) - pr)
+        tv /= 2
+        if tv > case['tv_bound']:
+            fail('default_rng_matches_distribution',
+                 f'total-variation distance {tv:.3f} between {len(draws)} default-rng draws '
+                 f'and the product distribution (bound {case["tv_bound"]})')
+    return len(draws), distinct >= 2
+
+
 def eval_case(case):
     from panqec.error_models import PauliErrorModel
     import warnings
@@ -73,6 +122,13 @@ def eval_case(case):
     def fail(rel, detail):
         if len(fails) < 6:
             fails.append({'relation': rel, 'detail': detail})
+    if case['kind'] == 'default_rng':
+        evals, nt = default_rng_case(case, fail)
+        for f in fails:
+            f['sig'] = {'bucket': 'default_rng'}
+            f['detail'] = f"{case['cls']}{tuple(case['size'])} r={case['direction']} p={case['error_rate']} " \
+                          f"{case.get('deformation')}: " + f['detail']
+        return {'fails': fails, 'nontrivial': nt, 'labels': ['default_rng'], 'evals': evals}
 
     cls, size = case['cls'], tuple(case['size'])
     r, p = case['direction'], case['error_rate']
@@ -226,7 +282,22 @@ def cases(draw, kind='exhaustive'):
             'rseed': draw(st.integers(0, 2**30))}
 
 
+def default_rng_cases(quick):
+    out = []
+    for cls, size, r, p, name, nd, tv in (
+            ('Toric2DCode', (3, 3), [1 / 3, 1 / 3, 1 / 3], 0.5, None, 40, None),
+            ('Toric2DCode', (4, 4), [0.1, 0.1, 0.8], 0.3, 'XZZX', 40, None),
+            ('RotatedPlanar3DCode', (2, 2, 2), [0.2, 0.3, 0.5], 0.4, None, 40, None),
+            ('RotatedPlanar2DCode', (2, 2), [0.2, 0.3, 0.5], 0.6, None, 4000, 0.35),
+            ('RotatedPlanar2DCode', (2, 2), [0.1, 0.1, 0.8], 0.3, 'XZZX', 4000, 0.35)):
+        out.append({'kind': 'default_rng', 'cls': cls, 'size': list(size), 'direction': r,
+                    'error_rate': p, 'deformation': name, 'kwargs': {},
+                    'n_draws': nd if quick or tv is None else 4 * nd, 'tv_bound': tv})
+    return out
+
+
 def run(ctx):
+    ctx.run_cases(default_rng_cases(ctx.tier == 'quick'), chunk=1)
     if ctx.tier == 'quick':
         ctx.run_hypothesis('cases', 160, kind='exhaustive')
         ctx.run_hypothesis('cases', 480, kind='random')
